@@ -595,6 +595,92 @@ def sys_idle_par():
     return out
 
 
+def sys_idle_evict():
+    """C15 soundness after evictions: an event processed *inline* on a bus with a small history (its own nested children push it out of
+    the history while its handler is still running) while somebody outside calls wait_until_idle() on that bus; the bus's run loop keeps
+    polling (0.1 s) in the meantime"""
+    out = []
+    for mh, nsub, tail, idle_at, inline, wal in itertools.product([1, 2, 3], [1, 2, 3], [150, 400], [20, 120, 250], [True, False], [False, True]):
+        if wal and (nsub != 1 or mh != 2):
+            continue
+        w_ops = []
+        for k in range(nsub):
+            w_ops += [['d', 'b2', 'S'], ['a', k]]
+        w_ops.append(['s', tail])
+        scripts = {'SA': {'R': [['d', 'b2', 'W'], ['a', 0]]}, 'SB': {'W': w_ops, 'S': []}}
+        handlers = [typed('b1', 'R', 'SA', hid='ha'), wild('b2', 'SB', hid='hb')]
+        d1 = [['d', 'b1', 'R'], ['a', 0]] if inline else [['d', 'b2', 'W'], ['a', 0]]
+        d2 = [['s', idle_at], ['idle', 'b2', 3000]]
+        out.append(scn([bus('b1'), bus('b2', maxhist=mh, wal=wal)], handlers, scripts, [d1, d2], horizon=8000, tag='idle_evict'))
+    return out
+
+
+def sys_stop_in_handler():
+    """C16: stop() called from inside a handler - of the bus being stopped (its run loop is waiting for that very handler) or of another
+    bus (whose run loop may already hold its next event and wait for the global lock); backlog queued behind"""
+    out = []
+    for target, after, nh, backlog, other_busy, par, fin in itertools.product(['b1', 'b2'], [[], [['y', 1]], [['s', 3]], [['d', 'b1', 'L'], ['y', 1]]], [1, 2],
+                                                                           [0, 2], [False, True], [False, True], ['idle', 'none']):
+        h1 = [['stop', target]] + after
+        scripts = {'H1': {'R': h1, 'L': [], 'M': []}, 'H2': {'R': [['s', 1]], 'L': [], 'M': []}, 'SB': {'M': [['s', 2]], 'L': [], 'R': []}}
+        handlers = [typed('b1', 'R', 'H1', hid='h1')]
+        if nh == 2:
+            handlers.append(typed('b1', 'R', 'H2', hid='h2'))
+        handlers += [typed('b1', 'L', 'H2', hid='hl'), wild('b2', 'SB', hid='hb')]
+        d = []
+        if other_busy:
+            d.append(['d', 'b2', 'M'])       # b2's run loop takes it and then waits for the lock b1's handler holds
+        d.append(['d', 'b1', 'R'])
+        d += [['d', 'b1', 'L'] for _ in range(backlog)] + [['d', 'b2', 'M'] for _ in range(backlog)]
+        d += [['s', 300]] + ([['idle', 'b1', 1000], ['idle', 'b2', 1000]] if fin == 'idle' else [])   # (idle on a stopped bus restarts it: finding G3)
+        out.append(scn([bus('b1', parallel=par), bus('b2')], handlers, scripts, [d], horizon=8000, tag='stop_in_handler'))
+    return out
+
+
+def sys_late_on():
+    """C01 with handlers registered at run time: bus.on() after the bus has already processed events of that type (and of other types),
+    while an event is queued, while one is in flight; typed and wildcard, sync and async, on the entry bus and on a second bus"""
+    out = []
+    for pat, kind, when, nested, other_bus, pre in itertools.product(['*', 'T'], ['async', 'sync'], ['before_any', 'after_first', 'while_queued', 'in_flight'],
+                                                                    [False, True], [False, True], [0, 1]):
+        lb = 'b2' if other_bus else 'b1'
+        scripts = {'H': {'T': ([['d', lb, 'T2']] + ([['a', 0]] if kind == 'async' else []) if nested else []) + ([['s', 4]] if when == 'in_flight' else []),
+                         'T2': [], 'U': []},
+                   'LATE': {'T': [], 'T2': [], 'U': []}}
+        handlers = [typed('b1', 'T', 'H', hid='h_t'), wild('b1', 'H', hid='h_w'), wild('b2', 'H', hid='h_b2'),
+                    dict(typed(lb, 'T', 'LATE', kind, hid='late') if pat == 'T' else wild(lb, 'LATE', kind, hid='late'), late=True)]
+        d = [['d', 'b1', 'U']] * pre
+        if when == 'before_any':
+            d += [['on', 'late'], ['d', lb, 'T'], ['a', pre]]
+        elif when == 'after_first':
+            d += [['d', lb, 'T'], ['a', pre], ['on', 'late']]
+        elif when == 'while_queued':     # registered after the dispatch but before the bus takes the event
+            d += [['d', lb, 'T'], ['on', 'late'], ['a', pre]]
+        else:                            # registered while the first event's handler is sleeping
+            d += [['d', lb, 'T'], ['s', 2], ['on', 'late'], ['a', pre]]
+        d += [['d', lb, 'T'], ['d', 'b1', 'T'], ['d', lb, 'U'], ['idle', 'b1', 2000], ['idle', 'b2', 2000]]
+        out.append(scn([bus('b1'), bus('b2')], handlers, scripts, [d], horizon=6000, tag='late_on'))
+    return out
+
+
+def sys_timeout_stray():
+    """C03 / C10: a fire-and-forget child U of an event Q whose own handlers have long returned is drained inline by an unrelated handler
+    (awaiting its own child) whose timeout fires while U is being handled: U must still complete and Q (which nothing else will ever
+    re-check) with it"""
+    out = []
+    for tmo, su, sc, ub, nh, deep, par in itertools.product([2, 4], [3, 6, 9], [0, 3], ['b1', 'b2'], [1, 2], [False, True], [False, True]):
+        u_ops = ([['d', ub, 'V']] if deep else []) + [['s', su]]
+        scripts = {'SQ': {'Q': [['d', ub, 'U']]}, 'SU': {'U': u_ops, 'V': [['s', 1]]}, 'SU2': {'U': [['s', 1]]},
+                   'SP': {'P': [['d', 'b1', 'C'], ['a', 0], ['s', 1]]}, 'SC': {'C': [['s', sc]] if sc else []}}
+        handlers = [typed('b1', 'Q', 'SQ', hid='hq'), typed(ub, 'U', 'SU', hid='hu'), typed(ub, 'V', 'SU', hid='hv'),
+                    typed('b1', 'P', 'SP', hid='hp'), typed('b1', 'C', 'SC', hid='hc')]
+        if nh == 2:
+            handlers.append(typed(ub, 'U', 'SU2', hid='hu2'))
+        d = [['d', 'b1', 'Q'], ['d', 'b1', 'P'], ['a', 0], ['a', 1], ['idle', 'b1', 2000], ['idle', 'b2', 2000]]
+        out.append(scn([bus('b1'), bus('b2', parallel=par)], handlers, scripts, [d], events={'P': {'timeout': tmo}}, horizon=8000, tag='timeout_stray'))
+    return out
+
+
 def gen_wal(seed):
     rng = random.Random(seed)
     nb = rng.choice([1, 2, 2, 3])
@@ -745,6 +831,10 @@ def gen_timeout_par(seed):
 
 
 FAMILIES = {
+    'timeout_stray': ('sys', sys_timeout_stray),
+    'late_on': ('sys', sys_late_on),
+    'stop_in_handler': ('sys', sys_stop_in_handler),
+    'idle_evict': ('sys', sys_idle_evict),
     'par_timeout': ('sys', sys_par_timeout),
     'timeout_par_rand': ('rand', gen_timeout_par),
     'fwd_deep': ('sys', sys_fwd_deep),
